@@ -30,6 +30,7 @@ RULE = ("a case is nontrivial when the document builds (no panic / error) and st
         "distinct = distinct document texts")
 
 LIMITATION_KEY = "StructEntry explicit schema default"
+RESERVED_KEY = "named like a literal"
 
 
 # ------------------------------------------------------------------------------------------- raw trees ----
@@ -184,6 +185,63 @@ def boundary_docs():
     return docs
 
 
+def pool_docs():
+    """for every name of gm.POOL (legal node names a sloppy "is it a number?" test would misread): a node of that name and
+    a reference to it at EVERY ImmOrPNode site of every kind (f64: Float pMin / pMax / pInc / pValueIndexed /
+    pValueDefault; i64: Integer ditto, Command pValue / pCommandValue, Enumeration pValue, register pLength / pAddress;
+    bool: Boolean pValue), except where the code is KNOWN to read the name as a literal (gm.code_reads)"""
+    IL, Imm, PN, Eb, Attr = gm.IL, gm.Imm, gm.PN, gm.Eb, gm.Attr
+    docs = []
+    for nm in gm.POOL:
+        ok = lambda site: gm.code_reads(nm, site) is None
+        nodes = [gm.Plain(Attr(nm), Eb())]
+        if ok("f"):
+            nodes.append(gm.Float(Attr("F"), Eb(), None, gm.Vk("pindex", "Ix", [(IL(0), PN(nm)), (IL(1), Imm(gm.FL("text", "1.5")))], PN(nm)),
+                                  PN(nm), PN(nm), PN(nm), None, None, None, None))
+        if ok("i"):
+            nodes.append(gm.Integer(Attr("I"), Eb(), None, gm.Vk("pindex", "Ix", [(IL(0), PN(nm)), (IL(1), Imm(IL(7)))], PN(nm)),
+                                    PN(nm), PN(nm), PN(nm), None, None, []))
+            nodes.append(gm.Command(Attr("C"), Eb(), PN(nm), PN(nm), None))
+            nodes.append(gm.Enumeration(Attr("E"), Eb(), None, [], PN(nm), [], None))
+            nodes.append(gm.IntReg(Attr("R"), gm.Rb(Eb(), None, [gm.Addr("addr", PN(nm)), gm.Addr("pindex", PN(nm), nm)], PN(nm), None,
+                                                   "Device", None, None, [nm]), None, None, None, None, [nm]))
+        if ok("b"):
+            nodes.append(gm.Boolean(Attr("B"), Eb(), None, PN(nm), None, None, []))
+        docs.append(gm.Doc(nodes))
+    return docs
+
+
+def reserved_docs(rng, quick):
+    """KNOWN finding probes: references to nodes whose legal name is spelled like a literal of the site"""
+    IL, Imm, PN, Eb, Attr = gm.IL, gm.Imm, gm.PN, gm.Eb, gm.Attr
+    out = []
+
+    def add(nodes, made):
+        d = gm.Doc(nodes)
+        d.reserved = made
+        out.append(d)
+    for nm in ("INF", "NaN") + tuple(gm.UNDERSCORE):
+        x = PN(nm, gm.code_reads(nm, "f"))
+        add([gm.Plain(Attr(nm), Eb()), gm.Float(Attr("F"), Eb(), None, gm.Vk("value", gm.FL("text", "1")), None, x, None, None, None, None, None)], [x])
+    for nm in ("Yes", "No", "true", "false"):
+        x = PN(nm, gm.code_reads(nm, "b"))
+        add([gm.Plain(Attr(nm), Eb()), gm.Boolean(Attr("B"), Eb(), None, x, IL(5), IL(-5), [])], [x])
+    for nm in gm.UNDERSCORE:
+        x = PN(nm, gm.code_reads(nm, "i"))
+        add([gm.Integer(Attr("I"), Eb(), None, gm.Vk("value", IL(1)), x, None, None, None, None, [])], [x])
+    gp = gm.Gen(rng)
+    gp.probe_reserved = True
+    n = 0
+    while n < (60 if quick else 1500):
+        gp.n = 0
+        gp.reserved_made = []
+        node = gp.node(["float", "boolean", "integer", "command", "enumeration", "intreg", "float", "boolean"])
+        if gp.reserved_made:
+            n += 1
+            add([node], list(gp.reserved_made))
+    return out
+
+
 def interrupted_boundary(rng):
     """node models whose every element text is cut into k + 1 pieces by k comments / processing instructions
     (`<Value>1<!--a-->2<?b?>3</Value>` is 123, `<pMax>Gain<!--a-->Max<!--b-->Node</pMax>` refers to GainMaxNode)"""
@@ -320,6 +378,8 @@ def gen_cases(ck):
         cases.append(doc_case("boundary", d))
     for note, t in boundary_trees():
         cases.append(tree_case("raw", t, note=note))
+    for d in pool_docs():
+        cases.append(doc_case("names", d))
     cases += interrupted_boundary(rng)
     n_gen = 800 if quick else 60000
     n_kind = 30 if quick else 1500
@@ -379,6 +439,9 @@ def gen_cases(ck):
             if s.known_limitation():
                 n += 1
                 cases.append(doc_case("limitation", gm.Doc([s])))
+    if ck.reserved_listed or os.environ.get("VERIF_C17_PROBE"):
+        for d in reserved_docs(rng, quick):
+            cases.append(doc_case("reserved-names", d))
     seen = set()
     out = []
     for c in cases:
@@ -484,6 +547,35 @@ def predicate(c, out):
 
 
 def matcher(f, c, out, why):
+    return matcher_limitation(f, c, out, why) or matcher_reserved(f, c, out, why)
+
+
+def matcher_reserved(f, c, out, why):
+    """KNOWN finding: a reference at an ImmOrPNode site to a node whose legal name is spelled like a literal of that
+    site (INF / NaN at float sites, Yes / No / true / false at the Boolean pValue) is read as the literal; a name starting
+    with an underscore is read as a numeral and panics.  Matches only documents that contain such a reference and whose
+    dump is exactly the declaration with those references replaced by the literal (resp. a panic)."""
+    if RESERVED_KEY not in f.get("match", "") + f.get("what", ""):
+        return False
+    doc = c.meta["doc"]
+    out = c.meta.get("full", out)
+    made = getattr(doc, "reserved", None) if doc is not None else None
+    if not made or out is None:
+        return False
+    if any(x.lit == "panic" for x in made):
+        return out == [2]
+    if out[0] != 0:
+        return False
+    rd, chunks, invs, _ = gm.split_dump(out, True)
+    gm.CODE_VIEW = True
+    try:
+        exp = doc.expected()
+    finally:
+        gm.CODE_VIEW = False
+    return describe(exp[:3], (rd, chunks, invs)) is None
+
+
+def matcher_limitation(f, c, out, why):
     """KNOWN finding (design limitation): a StructEntry that spells out the schema default of Visibility /
     IsDeprecated / ImposedAccessMode / AccessMode / Cachable / Streamable cannot override a non-default value of
     the structure.  Matches only documents that contain such an entry and whose dump is exactly the declaration
@@ -529,6 +621,8 @@ def main():
     ck.rule = RULE
     ck.limitation_listed = any(f.get("status") == "known" and LIMITATION_KEY in f.get("match", "") + f.get("what", "")
                                for f in ck.findings)
+    ck.reserved_listed = any(f.get("status") == "known" and RESERVED_KEY in f.get("match", "") + f.get("what", "")
+                             for f in ck.findings)
     ck.trusted += [
         "roxmltree (XML text -> tree) is taken as given: the model starts from the element tree; tools/c17.py builds the tree "
         "(Gallina term) and the text from the same Python object, for rendered node models the tree is produced by the Gallina "
